@@ -296,7 +296,12 @@ func genTokens() {
 		fail(T, "terminateMarkers not recognised in parseIdentifier")
 	}
 
+	before := len(failures)
 	genKeywordTable(&sb, fk, consts)
+	if len(failures) > before {
+		// keep the previous file: the driver must still build so that the failing-input search can run
+		return
+	}
 
 	sb.WriteString(footer(T))
 	writeIfChanged(*outDir+"/Tokens.lean", sb.String())
